@@ -11,13 +11,14 @@ demo=$(git status --short | grep '^??' | grep '_test.go' | awk '{print $2}' | he
 [ -n "$demo" ] && cp $demo $d/ 
 cp SEED_REPORT.md $d/ 2>/dev/null
 pkg=./$(dirname ${demo#lib/})
-name=$(grep -o 'func Test[A-Za-z0-9_]*' $demo | head -1 | cut -d' ' -f2)
+name='TestSeed.*' # all demo tests of the file (controls pass either way; at least one must fail with the change)
 echo "demo: $demo pkg $pkg test $name"
 (cd lib && go build ./... ) || { echo "BUILD FAILS"; exit 1; }
-with=$(cd lib && go test -vet=off -count=1 -run "^$name\$" $pkg 2>&1 | tail -1)
-git stash -q -- $(git diff --name-only) 
-without=$(cd lib && go test -vet=off -count=1 -run "^$name\$" $pkg 2>&1 | tail -1)
-git stash pop -q
+tags=""; grep -q '^//go:build verif' $demo && tags="-tags verif"
+with=$(cd lib && go test $tags -vet=off -count=1 -run "^$name" $pkg 2>&1 | tail -1)
+git apply -R $d/patch.diff || { echo "cannot revert patch"; exit 1; }
+without=$(cd lib && go test $tags -vet=off -count=1 -run "^$name" $pkg 2>&1 | tail -1)
+git apply $d/patch.diff
 echo "with change:    $with"; echo "without change: $without"
 # run the checks against /repo with the patch applied
 cd /repo && git apply $d/patch.diff || { echo "PATCH DOES NOT APPLY TO /repo"; exit 1; }
